@@ -20,4 +20,10 @@ int                verif_str_eq(char const *a, char const *b);
 int                verif_msg_has(char const *hay, char const *needle);
 }
 #define VASSERT(c, id) verif_assert((c) ? 1 : 0, id)
+// an obligation owned by property C<nn>; a check for one property compiles with -DVF_CLAIM=<nn> so that only its own
+// obligations (and the generated memory-safety checks) are in the query; VF_CLAIM=0 keeps all of them
+#ifndef VF_CLAIM
+#define VF_CLAIM 0
+#endif
+#define VCLAIM(nn, c, id) do { if (VF_CLAIM == 0 || VF_CLAIM == (nn)) verif_assert((c) ? 1 : 0, id); } while (0)
 #endif
